@@ -106,7 +106,7 @@ def cs_(s: str) -> str:
 # runtime view of one generated service
 # ======================================================================================
 class Rt:
-    def __init__(self, bundle, svc, base_dir):
+    def __init__(self, bundle, svc, base_dir, pydantic=False):
         from betterproto.compile.naming import pythonize_class_name, pythonize_method_name
 
         self.bundle, self.svc = bundle, svc
@@ -116,7 +116,11 @@ class Rt:
         self.Base = getattr(self.module, cname + "Base")
         self.py = [pythonize_method_name(m.name) for m in svc.methods]
         self.classes, self.names = {}, {}
-        import betterproto.lib.google.protobuf as gp
+        if pydantic:     # the package's own well-known classes are then the pydantic ones
+            import betterproto.lib.pydantic.google.protobuf as gp
+        else:
+            import betterproto.lib.google.protobuf as gp
+        self.pydantic = pydantic
 
         for full, (pkg, cn) in bundle.types.items():
             try:
@@ -1394,20 +1398,25 @@ def build_bundles(ctx):
             except Exception as e:  # noqa
                 ctx.fail("oracle", f"corpus service does not import: {type(e).__name__}: {e}",
                          cls="pyname-collision" if svc.collision else None, input={"files": bundle.files})
-    for b in range(nb):
-        root = f"c11g{os.getpid()}_{ctx.seed}_{b}"
+    # the last bundle(s) are compiled with the plugin option pydantic_dataclasses: stub, server base and the package's
+    # messages must then agree on the pydantic flavour of the well-known types as well
+    npyd = 1 if not ctx.thorough else 4
+    for b in range(nb + npyd):
+        pyd = b >= nb
+        root = f"c11{'p' if pyd else 'g'}{os.getpid()}_{ctx.seed}_{b}"
         n = 7
         bundle = pg.make_bundle(ctx.rng, root, n, pythonize_method_name, with_nopkg=True,
                                 collision_at=(5, 6) if b == 0 or ctx.thorough else (6,), full_matrix_at=(1,))
-        rc, out, _ = pu.generate(ctx.work, bundle.files, root)
+        rc, out, _ = pu.generate(ctx.work, bundle.files, root, options=("pydantic_dataclasses",) if pyd else ())
         if rc != 0:
             ctx.fail("oracle", "the plugin failed on a generated service bundle", input={"files": bundle.files, "output": out[-1500:]})
             continue
         for svc in bundle.services:
             try:
-                rts.append(Rt(bundle, svc, ctx.work))
+                rts.append(Rt(bundle, svc, ctx.work, pydantic=pyd))
+                ctx.count("pydantic_services", 1 if pyd else 0)
             except Exception as e:  # noqa
-                ctx.fail("oracle", f"generated package does not import / lacks the stub or base class: {type(e).__name__}: {e}",
+                ctx.fail("oracle", f"generated package{' (pydantic_dataclasses)' if pyd else ''} does not import / lacks the stub or base class: {type(e).__name__}: {e}",
                          cls="pyname-collision" if svc.collision else None,
                          input={"files": bundle.files, "service": svc.name, "traceback": traceback.format_exc()[-1500:]})
     return rts
